@@ -14,7 +14,7 @@
     [wf_trials]: see Properties/C16.v. *)
 From Coq Require Import ZArith List Bool Arith.
 From SP Require Import Design.Flat Design.Sem Front.Trials Front.TrialsWf Front.TrialsProofs Front.Create
-  Front.NestProofs Front.NestSem Front.NestSem2 Front.NestSem3.
+  Front.NestProofs Front.NestSem Front.NestSem2 Front.NestSem3 Front.NestSem4.
 Import ListNotations.
 
 (** What Nest(outer, inner, cs) builds: the crossings of both blocks side by side, the
@@ -237,13 +237,37 @@ Example C25_example_groups_constraints :
   length (all_valid (nest_sem2 ex_outer_c ex_inner_c)) = 3.
 Proof. exact ex_nestable_c2. Qed.
 
-(** Outside the guard (derived factors, outer or other kinds of constraints, preamble trials, nested
-    Nests, inner crossings with a partial last chunk - where the property fails on the real code,
-    c25.py finding nest:groups:inner-partial-chunk) the following part holds for every normal form: in the
+(** Guard 4, [nestable_s_b] (Front/NestSem4.v): an argument block may itself be a Nest - a crossed outer
+    factor may have any positive sustain count (it is multiplied by [Ti] in the Nest), an inner factor any
+    positive sustain count dividing the inner trial count [Ti]; everything else as in [nestable_f_b]. *)
+Theorem C25_nest_groups_sustained :
+  forall So Si s,
+    nestable_s_b So Si = true ->
+    (valid_b (nest_sem2 So Si) s = true <-> groups_spec2 So Si s).
+Proof. exact nest_groups_s. Qed.
+Print Assumptions C25_nest_groups_sustained.
+
+Theorem C25_nestable_s_includes :
+  forall So Si, nestable_f_b So Si = true -> nestable_s_b So Si = true.
+Proof. exact nestable_s_includes. Qed.
+Print Assumptions C25_nestable_s_includes.
+
+(** Nest(A, Nest(B, C)) over 2-level factors: the inner block's B has sustain count 2; in the whole Nest
+    the sustain counts are 4, 2, 1. *)
+Example C25_example_groups_sustained :
+  map f_sustain (s_factors ex_inner_nest) = [2; 1] /\
+  nestable_f_b (ex_two_levels 2) ex_inner_nest = false /\ nestable_s_b (ex_two_levels 2) ex_inner_nest = true /\
+  map f_sustain (s_factors (nest_sem2 (ex_two_levels 2) ex_inner_nest)) = [4; 2; 1].
+Proof. destruct ex_nestable_s as [H1 [H2 [H3 [H4 _]]]]. repeat split; assumption. Qed.
+
+(** Outside the widest guard [nestable_s_b] (derived factors with windows over several trials, outer Pin /
+    Sequential / run-length constraints other than AtMostKInARow, constraints of the Nest itself, preamble
+    trials, inner crossings with a partial last chunk - where the property fails on the real code, c25.py
+    finding nest:groups:inner-partial-chunk) the following part holds for every normal form: in the
     reference semantics a non-derived factor with sustain count [su] carries one level per
     group of [su] consecutive trials - the outer levels are held fixed over each inner run.
-    Not proved outside the guard: (b) and (c) above, and associativity of nesting; the harness
-    decides them on exhausted solution sets (c25.py). *)
+    Not proved outside the guards: (b), (c), (d) above; the harness decides them on exhausted solution
+    sets, as it does associativity of nesting (c25.py). *)
 Theorem C25_nest_groups_partial :
   forall (S : sem) (s : tseq) (f : nat) (fd : dfactor) (t t' : nat),
     factor_ok S s f fd = true -> f_derived fd = None -> t < s_trials S -> t' < s_trials S ->
